@@ -77,7 +77,7 @@ pub fn strategy(max_ops: usize) -> impl Strategy<Value = Case> {
     let op = prop_oneof![
         24 => (
             prop_oneof![6 => Just(0u8), 2 => Just(1u8), 2 => Just(2u8)],
-            prop_oneof![3 => (0u16..LENS.len() as u16), 2 => (100u16..1600)],
+            prop_oneof![3 => 0u16..LENS.len() as u16, 2 => 100u16..1600],
             any::<u16>(),
             prop_oneof![4 => Just(1u8), 3 => 2u8..20, 2 => 20u8..90]
         )
